@@ -42,6 +42,11 @@ TRUSTED_BASE = [
     "modulo 2^w; each compared with the implementation on every generated case",
     "pickle's byte serialisation, copy's reconstruction protocol and Numba's native representation are not "
     "modelled below the level of the state object / the four native fields (differential only)",
+    "the CRC half of the oracle is a theorem for single-byte payload damage (crc32_detects_single_byte, "
+    "testzip_detects_corruption, npz_payload_corruption_rejected over Model/Crc32.v); what stays trusted there: "
+    "ZipFile.testzip() recomputes the CRC-32 of every member's (decompressed) payload and compares it with the "
+    "recorded CRC, and Model/Crc32.v is zlib's crc32 (compared on random messages and on the members / CRC fields of "
+    "real np.savez archives in every run)",
     "correspondence harness tools/props/c14.py, tools/vlib.py",
 ]
 ASSUMPTIONS = [
@@ -282,6 +287,16 @@ def load_bytes(buf, orig):
     return (1, None) if f == orig else (2, f)
 
 
+def impl_crc(case):
+    """the payload and the recorded CRC of every member of a saved archive"""
+    import io
+    import zipfile
+    spec, compressed = case
+    _orig, buf = saved_file(spec, compressed)
+    z = zipfile.ZipFile(io.BytesIO(buf))
+    return {"members": [(i.filename, list(z.read(i.filename)), int(i.CRC)) for i in z.infolist()]}
+
+
 def impl_missing(case):
     """rewrite the saved archive without the listed members and load it"""
     import io
@@ -305,7 +320,11 @@ def fault_positions(buf, kind, part, parts):
     """positions of a batch.  trunc / xorMM: every byte of the file; hdrMM (boundary-directed): the 128 bytes that
     follow every npy magic string visible in the file (header length field and header dictionary of each member)"""
     n = len(buf)
-    if kind.startswith("hdr"):
+    if kind.startswith("dig"):
+        # the first digit of the dtype width in every visible npy header: 'descr': '<i8'
+        import re
+        pos = [m.start(1) for m in re.finditer(rb"'descr': '[<>=|][A-Za-z](\d)", buf)]
+    elif kind.startswith("hdr"):
         pos, i = [], buf.find(b"\x93NUMPY")
         while i >= 0:
             pos += [p for p in range(i, min(n, i + 128))]
@@ -319,6 +338,10 @@ def fault_positions(buf, kind, part, parts):
 def apply_fault(buf, kind, i):
     if kind == "trunc":
         return buf[:i]
+    if kind.startswith("dig"):
+        bb = bytearray(buf)
+        bb[i] = ord(kind[3])           # dig1 / dig2 / dig4 / dig8: the width digit becomes 1 / 2 / 4 / 8
+        return bytes(bb)
     mask = int(kind[3:], 16)
     bb = bytearray(buf)
     bb[i] ^= mask
@@ -491,7 +514,9 @@ def gen_fault_files(tier, rng):
     ]
     kinds = ["trunc", "xorff", "xor01"]
     allbits = ["xor02", "xor04", "xor08", "xor10", "xor20", "xor40", "xor80"]
-    hdr = ["hdr01", "hdr02", "hdr04", "hdr08", "hdr10", "hdr20", "hdr40", "hdr80"]   # only meaningful on uncompressed files
+    # boundary-directed streams, only meaningful on uncompressed files: every single-bit flip of the npy header region,
+    # and the dtype width digit replaced by 1 / 2 / 4 / 8 (makes numpy read fewer bytes than the member holds)
+    hdr = ["hdr01", "hdr02", "hdr04", "hdr08", "hdr10", "hdr20", "hdr40", "hdr80", "dig1", "dig2", "dig4", "dig8"]
     files = []
     if tier == "quick":
         for s in small[:4]:
@@ -505,11 +530,11 @@ def gen_fault_files(tier, rng):
     else:
         for s in small + repaired[:3]:
             for comp in (True, False):
-                files.append((s, comp, kinds + allbits, 4))
-        files.append((repaired[3], False, kinds + allbits, 24))
+                files.append((s, comp, kinds + allbits + ([] if comp else hdr[8:]), 4))
+        files.append((repaired[3], False, kinds + allbits + hdr[8:], 24))
         for s in big:
             for comp in (True, False):
-                files.append((s, comp, kinds + allbits, 24))
+                files.append((s, comp, kinds + allbits + ([] if comp else hdr[8:]), 24))
         for _ in range(6):
             nd = rng.choice([1, 2, 3, 4])
             sh = [rng.choice([1, 2, 3, 5]) for _ in range(nd)]
@@ -562,7 +587,7 @@ def olit(o):
     return f"({EXC_CODE.get(o.get('exc'), 9)}, None)"
 
 
-IMPORTS = "From Verif Require Import Py Shape COO S_npz Npz NpzP C14Judge."
+IMPORTS = "From Verif Require Import Py Shape COO S_npz Npz Crc32 NpzP C14Judge."
 
 
 def spec_py(spec):
@@ -571,7 +596,7 @@ def spec_py(spec):
 
 def replay_line(fn, *args):
     a = ", ".join(spec_py(x) if isinstance(x, dict) else repr(x) for x in args)
-    return f"import sys; sys.path[:0]=['/verif/tools','/repo']; from props import c14; c14.{fn}({a})"
+    return f"import sys; sys.path[:0]=['/verif/tools','{vlib.REPO}']; from props import c14; c14.{fn}({a})"
 
 
 def kind_of(code):
@@ -691,6 +716,29 @@ def campaign(build, tier, seed, report, budget=1):
                                    f"(verdict {w['observed_verdict']}, expected {w['expected_verdict']})")
 
     phase["numba_s"] = round(time.time() - t0 - phase["roundtrips_s"], 1)
+    # ---------------------------------------------------------------- CRC-32: Model/Crc32.v against zlib and real archives
+    import zlib
+    crc_l, crc_what = [], []
+    for n in [0, 1, 2, 3, 4, 7, 8, 9, 31, 32, 33, 64, 255, 256, 300] + [rng.randrange(1, 400) for _ in range(40 if tier == "quick" else 200)]:
+        msg = [rng.randrange(256) for _ in range(n)]
+        if n and rng.random() < 0.2:
+            msg = [rng.choice([0, 255])] * n
+        crc_l.append(vpair(vlist(msg), vZ(zlib.crc32(bytes(msg)))))
+        crc_what.append(("zlib.crc32", n))
+    cres = vlib.run_impl("props.c14", "impl_crc", [(f[0], f[1]) for f in files[:4]], workers=2, per_case_timeout=60.0)
+    for (spec, comp, _k, _p), r in zip(files[:4], cres, strict=True):
+        for name, payload, crc in r.get("members", []):
+            if len(payload) <= 1200:
+                crc_l.append(vpair(vlist(payload), vZ(crc)))
+                crc_what.append(("archive member " + name + (" (deflated)" if comp else " (stored)"), len(payload)))
+    evaluations += len(crc_l)
+    tag("crc32", "messages", len(crc_l))
+    for ci, code in build.judge("c14_crc", IMPORTS, "list Z * Z", "judge_crc", crc_l, chunk=40):
+        tag("verdict", "c14_crc", code)
+        viol.append({"property": "C14", "op": "crc32_model", "kind": "representation", "clause": None, "verdict_code": code,
+                     "what": f"Model/Crc32.v disagrees with {crc_what[ci][0]} on a {crc_what[ci][1]}-byte message",
+                     "case": crc_what[ci], "impl": None, "replay_py": "import zlib; print(zlib.crc32(b'123456789'))"})
+    cov["crc32_messages_checked"] = len(crc_l)
     # ---------------------------------------------------------------- archives with members removed
     mcases = gen_missing_cases(tier)
     mres = vlib.run_impl("props.c14", "impl_missing", mcases, workers=4, per_case_timeout=60.0)
